@@ -47,12 +47,14 @@ def run_laze(laze, files, c, extra_args=None, keep=False, threads=None, info=Tru
             rc, out, err = "timeout", "", ""
         nf = os.path.join(root, bd, "build-local.ninja" if c.get("local") is not None else "build-global.ninja")
         ninja = open(nf, "rb").read() if os.path.exists(nf) else None
-        inf = None
+        inf = None; inf_raw = None
         ip = os.path.join(tmp, "info.json")
         if os.path.exists(ip):
+            # the bytes of the file (the order of its keys is part of them), with the scratch directory blanked
+            inf_raw = open(ip, "rb").read().replace(root.encode(), b"@ROOT@").replace(tmp.encode(), b"@TMP@")
             try: inf = json.load(open(ip))
             except Exception: inf = None
-        return dict(rc=rc, stdout=out, stderr=err, ninja=ninja, info=inf, root=root, argv=args[1:], events=take_events(tmp))
+        return dict(rc=rc, stdout=out, stderr=err, ninja=ninja, info=inf, info_raw=inf_raw, root=root, argv=args[1:], events=take_events(tmp))
     finally:
         if not keep:
             shutil.rmtree(tmp, ignore_errors=True)
